@@ -571,6 +571,26 @@ func main() {
 					return st
 				})
 				r.Count("list_paths", cnt)
+				// non-initial start states: the list scrolled to its end in a window of 1 / 2 rows
+				if nn >= 3 {
+					idxOf := func(name string) uint16 {
+						for i, o := range listOps() {
+							if o.name == name {
+								return uint16(i)
+							}
+						}
+						r.Fault("no list operation %q", name)
+						return 0
+					}
+					for _, pre := range [][]uint16{{idxOf("End"), idxOf("Draw(h=2)")}, {idxOf("End"), idxOf("Draw(h=1)")}} {
+						pp := pre
+						cnt := explore.EnumeratePaths(len(listOps()), r.Pick(3, 4), func(p []uint16) explore.Status {
+							_, st := runList(nn, append(append([]uint16{}, pp...), p...))
+							return st
+						})
+						r.Count("list_paths", cnt)
+					}
+				}
 			}
 			r.WorkerDone()
 		case arg == "dyn":
@@ -623,7 +643,7 @@ func main() {
 	trans += r.Get("pager_cases")
 	r.Finish(explore.Coverage{
 		States: -1, Transitions: trans, Traces: trans, Evaluations: trans,
-		Rule:       "widgets/list.List: every operation sequence to depth n over {Down, Up, Home, End, PageDown/PageUp(h=0..3), SetItems(0..4), Draw(h=0..4)} from 0..4 items; vxfw/list.Dynamic: every sequence to depth n over 20 operations (NextItem/PrevItem, j/k/arrows through CaptureEvent, wheel, SetCursor, SetPendingScroll, item replacement, Draw) for 96 configurations (item heights, gap 0/1, viewport height 1..4, gutter); pager: every text of <= m symbols over {a, 世, LF, SP, CR LF} x width 1..4 x height 1..3 x 10 scroll sequences. Oracles: no panic, index in range, children consecutive/contiguous/non-overlapping, selected item inside the viewport after a selection change and a draw, pager content complete (incl. an unterminated last line and wide glyphs at the row end) and offset clamped; operation sequences are not merged (state key = the path)",
+		Rule:       "widgets/list.List: every operation sequence to depth n over {Down, Up, Home, End, PageDown/PageUp(h=0..3), SetItems(0..4), Draw(h=0..4)} from 0..4 items and, for 3 and 4 items, from the list scrolled to its end in a window of 1 or 2 rows; vxfw/list.Dynamic: every sequence to depth n over 20 operations (NextItem/PrevItem, j/k/arrows through CaptureEvent, wheel, SetCursor, SetPendingScroll, item replacement, Draw) for 96 configurations (item heights, gap 0/1, viewport height 1..4, gutter); pager: every text of <= m symbols over {a, 世, LF, SP, CR LF} x width 1..4 x height 1..3 x 10 scroll sequences. Oracles: no panic, index in range, children consecutive/contiguous/non-overlapping, selected item inside the viewport after a selection change and a draw, pager content complete (incl. an unterminated last line and wide glyphs at the row end) and offset clamped; operation sequences are not merged (state key = the path)",
 		Exhaustive: true,
 		Bounds:     map[string]any{"list_depth": r.Pick(3, 4), "dynamic_depth": r.Pick(3, 4), "dynamic_configs": dynRange, "pager_max_len": r.Pick(5, 6)},
 	})
